@@ -205,6 +205,7 @@ def A10_descending_contract(repo, clause):
                       "MUTATES" if pm else "does not mutate", P), construct="def %s" % callee.name, slot="index-argument-not-mutated", positive=True))
     obs.extend(_reindex_reached(repo, clause, callee, P, loops))
     obs.extend(_row_indices_original(repo, clause, callee))
+    obs.extend(_order_beliefs(repo, clause, callee, P))
     for c in anys:
         obs.append(Ob("A10", clause, callee, c, call_name(c) == "any",
                       "a term is dropped when %s of its atoms is in the deleted set (must be ANY)" % call_name(c).upper(), slot="drop-quantifier"))
@@ -659,9 +660,17 @@ def _degenerate_axis_fallback(repo, clause):
         args = [expand(fn, a_) for a_ in val.args]
         consts = [a_ for a_ in args if is_const_vec(a_)]
         rnd = any("random" in ast.unparse(a_) for a_ in args)
-        ok3 = not consts
+        # a helper that is a deterministic, branch-free (continuous) function of the input alone: cross(v, f(v)) is a continuous tangent field on the
+        # sphere and vanishes for some direction (hairy-ball theorem; for linear f: along a real eigenvector of f)
+        case_split = any(isinstance(y, (ast.IfExp, ast.Compare)) or (isinstance(y, ast.Call) and call_name(y) in ("argmin", "argmax", "where", "argsort", "choice")) for a_ in args for y in ast.walk(a_))
+        raw_args = list(n.value.args) if isinstance(n.value, ast.Call) else []
+        others = [a_ for a_ in raw_args if ast.unparse(a_) != v1 and not is_const_vec(a_)]
+        lin = (not rnd) and (not consts) and (not case_split) and bool(others) and all(
+            all((not isinstance(y, ast.Name)) or y.id in (v1, "np", "numpy") for y in ast.walk(o_)) for o_ in others)
+        ok3 = not consts and not lin
         kind = "random (never parallel to the input, almost surely)" if rnd else (
-            "a CONSTANT vector: inputs along it give a zero axis and a degenerate rotation, so occurrences in that pose are lost" if consts else "input-dependent")
+            "a CONSTANT vector: inputs along it give a zero axis and a degenerate rotation, so occurrences in that pose are lost" if consts else (
+                "a deterministic, branch-free function of the input alone: cross(v, f(v)) is a continuous tangent field on the sphere and therefore ZERO for some direction (e.g. along an eigenvector of f); poses along that direction are lost" if lin else "input-dependent with a case split"))
         d3 = "fallback axis = %s: helper is %s" % (ast.unparse(n.value)[:70], kind)
     else:
         lin = linear_in_input(val)
@@ -903,6 +912,17 @@ def A17_mass_guess(repo, clause):
                               "the scan over the mass table stops early; that is only sound for a table in increasing mass order, "
                               "and ATOMIC_MASSES is %s (entries lighter than their predecessor: %s)" % (
                                   "ordered" if ordered else "NOT ordered", inversions[:8]), slot="early-termination", positive=True))
+    # every element handed back comes from the nearest-element selection; a shortcut that accepts another candidate by the tolerance alone is a first-hit rule in disguise
+    if fe is not outer:
+        for c_ in [x for x in outer.own_nodes() if isinstance(x, ast.Call) and isinstance(x.func, ast.Attribute) and x.func.attr in ("append", "extend") and x.args]:
+            a0 = c_.args[0]
+            from_sel = isinstance(a0, ast.Call) and call_name(a0) == fe.name
+            tol_guard = any(tolname in ast.unparse(t) for t, pol, k in norm_guards(outer, c_))
+            if not from_sel:
+                obs.append(Ob("A17", clause, outer, c_, False,
+                              "`%s` adds an element that does NOT come from the nearest-element selection %s(...)%s" % (
+                                  ast.unparse(c_)[:50], fe.name, ": it is accepted because it is within the tolerance (e.g. the previous type's element), although another element may be nearer" if tol_guard else ""),
+                              slot="result-from-selection", positive=tol_guard, undecided=not tol_guard))
     # the raise for "no element" must exist
     raises = [n for f in [outer] + cands for n in f.own_nodes() if isinstance(n, ast.Raise)]
     obs.append(Ob("A17", clause, fe, raises[0] if raises else fe.node, bool(raises),
@@ -1532,6 +1552,18 @@ def _row_indices_original(repo, clause, callee):
                             elif isinstance(d, ast.For):
                                 work.append(d.iter)
         stale = None
+        subset = None
+        for lp_ in [a for a in callee.ancestors(st) if isinstance(a, ast.For)]:
+            it_ = lp_.iter
+            if isinstance(it_, ast.Call) and call_name(it_) == "enumerate" and it_.args and isinstance(it_.args[0], ast.Subscript) \
+                    and isinstance(it_.args[0].value, ast.Name) and it_.args[0].value.id in (callee.params[1] if len(callee.params) > 1 else "", "arr") \
+                    and isinstance(lp_.target, ast.Tuple) and isinstance(lp_.target.elts[0], ast.Name) and lp_.target.elts[0].id in srcs:
+                subset = it_.args[0]
+        if subset is not None:
+            obs.append(Ob("A10", clause, callee, st, False,
+                          "row numbers added to `%s` count positions within the SELECTION `%s`, not rows of the term array: __delitem__ deletes those positions from the full-length type and extra-field arrays, so another term's type is removed" % (
+                              L, ast.unparse(subset)[:50]), slot="row-indices-original", positive=True))
+            continue
         for nm in sorted(srcs):
             for sh in shrinks.get(nm, []):
                 if cfg.reaches(sh, st):
@@ -1706,4 +1738,36 @@ def A18c_option_types(repo, clause):
                       "files whose suffix is in %s are handled by Atoms.%s%s" % (ast.unparse(te.comparators[0])[:40], which,
                                                                                 "" if uses_lib else " -- NO: the branches are exchanged, the library's own formats go to ASE and everything else to the library"),
                       slot="suffix-branch:%s" % which, positive=True))
+    return obs
+
+
+def _order_beliefs(repo, clause, callee, P):
+    """Every caller passes the deleted indices in DESCENDING order (the contract of the iterative re-index), so P[0] is the LARGEST and
+    P[-1] the SMALLEST deleted index.  A comparison that has P[0] on the greater side (`P[0] > x`, `x < P[0]`) uses it as a lower bound of
+    the deleted indices - i.e. believes it is the smallest - and vice versa for P[-1]: a contradiction with the contract."""
+    obs = []
+    for x in [n for n in callee.own_nodes() if isinstance(n, ast.Compare) and len(n.ops) == 1 and isinstance(n.ops[0], (ast.Lt, ast.LtE, ast.Gt, ast.GtE))]:
+        l, r = expand(callee, x.left), expand(callee, x.comparators[0])
+        def end_of_P(e):
+            if isinstance(e, ast.Subscript) and isinstance(e.value, ast.Name) and e.value.id == P and const_value(e.slice) in (0, -1):
+                return const_value(e.slice)
+            return None
+        gt = isinstance(x.ops[0], (ast.Gt, ast.GtE))
+        greater, smaller = (l, r) if gt else (r, l)
+        bad = None
+
+        def has_call(e, names):
+            return any(isinstance(y, ast.Call) and call_name(y) in names for y in ast.walk(e))
+        # "P[0] exceeds a MAXIMUM of remaining atom numbers" only says something if P[0] is the smallest deleted index;
+        # "P[-1] is below a MINIMUM" only if P[-1] is the largest.  (P[0] against a minimum / P[-1] against a maximum are consistent uses.)
+        if end_of_P(greater) == 0 and has_call(smaller, ("max", "amax")):
+            bad = "%s[0] as a LOWER bound of the deleted indices (as if it were the smallest)" % P
+        elif end_of_P(smaller) == -1 and has_call(greater, ("min", "amin")):
+            bad = "%s[-1] as an UPPER bound of the deleted indices (as if it were the largest)" % P
+        if end_of_P(greater) is None and end_of_P(smaller) is None:
+            continue
+        obs.append(Ob("A10", clause, callee, x, bad is None,
+                      "`%s` uses %s" % (ast.unparse(x), bad + ", but every caller passes the list in DESCENDING order: terms touching a smaller deleted index are skipped and keep stale atom numbers"
+                                        if bad else "the ends of the descending list consistently with the contract"),
+                      slot="order-belief", positive=bad is not None))
     return obs
